@@ -272,6 +272,7 @@ func verifTensorLine(ts []verifTensor) string {
 type verifWT struct {
 	data []byte
 	mode int
+	id   int // position in the caller's list: how the driver recognises the tensor after WriteGGUF's sort
 }
 
 func (w verifWT) WriteTo(dst io.Writer) (int64, error) {
@@ -307,7 +308,7 @@ func verifC05FailingSource(out *zzverif.Out, dir string, kvs []verifKV, ts []ver
 		if i == bad {
 			mode = 4
 		}
-		gts[i] = Tensor{Name: t.name, Kind: t.kind, Shape: t.shape, WriterTo: verifWT{t.data, mode}}
+		gts[i] = Tensor{Name: t.name, Kind: t.kind, Shape: t.shape, WriterTo: verifWT{t.data, mode, i}}
 	}
 	f, err := os.Create(filepath.Join(dir, "c05-fail.gguf"))
 	if err != nil {
@@ -331,14 +332,12 @@ func verifWrite(dir string, kvs []verifKV, ts []verifTensor) (data []byte, order
 		kv[e.key] = e.val
 	}
 	gts := make([]Tensor, len(ts))
-	byName := map[*byte]int{}
-	_ = byName
 	for i, t := range ts {
 		// the data source's WriteTo result is not part of the contract WriteGGUF may rely on for the layout
-		// (every WriterTo in convert/ writes its bytes and returns 0): vary it, the file must not depend on it
-		gts[i] = Tensor{Name: t.name, Kind: t.kind, Shape: t.shape, WriterTo: verifWT{t.data, (len(t.data) + i) % 4}}
-		// remember identity through the Offset field (overwritten only on the loop copy)
-		gts[i].Offset = uint64(i)
+		// (every WriterTo in convert/ writes its bytes and returns 0): vary it, the file must not depend on it.
+		// The source also carries the tensor's position in the caller's list: WriteGGUF sorts the slice in place and may
+		// assign any Tensor field, so the order it wrote is read back from the sources, not from a field.
+		gts[i] = Tensor{Name: t.name, Kind: t.kind, Shape: t.shape, WriterTo: verifWT{t.data, (len(t.data) + i) % 4, i}}
 	}
 	f, err := os.Create(filepath.Join(dir, "c05.gguf"))
 	if err != nil {
@@ -350,7 +349,7 @@ func verifWrite(dir string, kvs []verifKV, ts []verifTensor) (data []byte, order
 		return nil, nil, err
 	}
 	for _, g := range gts {
-		order = append(order, ts[g.Offset])
+		order = append(order, ts[g.WriterTo.(verifWT).id])
 	}
 	if _, err := f.Seek(0, io.SeekStart); err != nil {
 		return nil, nil, err
@@ -513,6 +512,34 @@ func verifC05Case(out *zzverif.Out, dir string, kvs []verifKV, ts []verifTensor,
 		}
 	}
 	out.Count("cases")
+	if len(ts) == 0 {
+		out.Count("cases_no_tensor")
+	}
+	for i := range order {
+		if order[i].name != ts[i].name || !bytes.Equal(order[i].data, ts[i].data) {
+			out.Count("cases_sort_reordered")
+			break
+		}
+	}
+	for _, e := range kvs {
+		if e.key == "general.alignment" && e.val.(uint32) != 32 {
+			out.Count("cases_alignment_not_32")
+		}
+		switch v := e.val.(type) {
+		case string:
+			if v == "" {
+				out.Count("kv_empty_string")
+			}
+		case []int32:
+			verifC05CountArr(out, len(v), maxArray)
+		case []uint32:
+			verifC05CountArr(out, len(v), maxArray)
+		case []float32:
+			verifC05CountArr(out, len(v), maxArray)
+		case []string:
+			verifC05CountArr(out, len(v), maxArray)
+		}
+	}
 	out.Add("tensors", len(ts))
 	out.Add("kvs", len(kvs))
 	if len(ts) >= 3 {
@@ -526,6 +553,21 @@ func verifC05Case(out *zzverif.Out, dir string, kvs []verifKV, ts []verifTensor,
 	}
 	for _, e := range kvs {
 		out.Count("kvtype_" + e.tag)
+	}
+}
+
+func verifC05CountArr(out *zzverif.Out, n, maxArray int) {
+	limit := maxArray
+	if limit == 0 {
+		limit = 1024
+	}
+	switch {
+	case n == 0:
+		out.Count("kv_empty_array")
+	case limit >= 0 && n > limit:
+		out.Count("kv_array_not_collected")
+	default:
+		out.Count("kv_array_collected")
 	}
 }
 
@@ -630,5 +672,23 @@ func TestVerifC05Table(t *testing.T) {
 	for k := uint32(0); k < 64; k++ {
 		x := Tensor{Kind: k}
 		fmt.Fprintf(f, "%d %d %d\n", k, x.typeSize(), x.blockSize())
+	}
+	// the real ggufPadding over offsets 0..99 x alignments 1..40 (+ the page-sized ones): the model's `padding`
+	pf, err := os.Create(filepath.Join(zzverif.OutDir(), "padding.txt"))
+	if err != nil {
+		t.Fatal(err)
+	}
+	defer pf.Close()
+	aligns := []int64{64, 100, 128, 4096}
+	for a := int64(1); a <= 40; a++ {
+		aligns = append(aligns, a)
+	}
+	for _, a := range aligns {
+		for off := int64(0); off < 100; off++ {
+			fmt.Fprintf(pf, "%d %d %d\n", off, a, ggufPadding(off, a))
+		}
+		for _, off := range []int64{4095, 4096, 4097, 1 << 20, 1<<40 + 17, 1<<62 + 5} {
+			fmt.Fprintf(pf, "%d %d %d\n", off, a, ggufPadding(off, a))
+		}
 	}
 }
